@@ -11,12 +11,12 @@
 use crate::dates::{hex_decode, hex_encode};
 use crate::duals::{hf, pf};
 use crate::rng::Rng;
-use rateslib::calendars::{Cal, NamedCal, UnionCal};
-use rateslib::dual::{Dual, Dual2, Gradient1, Gradient2, Number, Vars};
+use rateslib::calendars::{Cal, CalType, Convention, Modifier, NamedCal, UnionCal};
+use rateslib::dual::{ADOrder, Dual, Dual2, Gradient1, Gradient2, Number, Vars};
 use rateslib::fx::rates::{Ccy, FXPair, FXRate, FXRates};
 use rateslib::json::JSON;
 use rateslib::splines::PPSpline;
-use rateslib::verif_hooks::from_json_tagged;
+use rateslib::verif_hooks::{from_json_tagged, CurveHandle};
 use serde_json::Value;
 use std::io::{BufRead, BufReader, Write};
 use std::panic::{catch_unwind, AssertUnwindSafe};
@@ -538,7 +538,33 @@ fn valid_doc(r: &mut Rng) -> J {
         nm.truncate(k);
         nm.iter().map(|s| s.to_string()).collect()
     };
-    match r.below(10) {
+    match r.below(11) {
+        10 => {
+            // a curve (the loader MODEL does not cover it: judged by the model-free oracle only)
+            let mut map = indexmap::IndexMap::new();
+            let mut d = r.range(15000, 16000);
+            for _ in 0..r.range(2, 4) {
+                map.insert(crate::dates::day(d), Number::F64(1.0 - 0.001 * (d % 97) as f64));
+                d += r.range(30, 400);
+            }
+            let interp = *r.pick(&["linear", "log_linear", "linear_zero_rate", "flat_forward", "flat_backward"]);
+            let ad = *r.pick(&[ADOrder::Zero, ADOrder::One, ADOrder::Two]);
+            let base = if r.chance(1, 2) { None } else { Some(100.0) };
+            let c = CurveHandle::new(
+                map,
+                interp,
+                ad,
+                "c".to_string(),
+                Convention::Act365F,
+                Modifier::ModF,
+                CalType::NamedCal(NamedCal::try_new("tgt").unwrap()),
+                base,
+            )
+            .unwrap();
+            // `to_json` of the Python-facing curve is already the tagged document
+            let v: Value = serde_json::from_str(&c.to_json().unwrap()).expect("own json");
+            J::from_value(&v)
+        }
         0 | 1 => {
             let v = mk_vars(r);
             let d: Vec<f64> = v.iter().map(|_| small(r)).collect();
